@@ -48,6 +48,8 @@ class Harness:
         self.tier = attrs.get("tier", "quick")   # quick | thorough | quickonly
         self.obl = attrs.get("obl", "")
         self.timeout = int(attrs.get("timeout", "600"))
+        if os.environ.get("VERIF_MAX_TIMEOUT"):
+            self.timeout = min(self.timeout, int(os.environ["VERIF_MAX_TIMEOUT"]))
         self.mem = int(attrs.get("mem", "8"))
         self.flags = attrs.get("flags", "")
         self.desc = attrs.get("desc", "")
@@ -330,6 +332,7 @@ class HarnessRun:
         self.replay = None       # dict
         self.vccs = None
         self.steps = None
+        self.cached = None
 
 
 def run_kani(crate, h, tdir, logdir, extra=None, timeout=None, mem=None, suffix=""):
@@ -533,6 +536,60 @@ def match_known(known, prop, hname, desc):
 
 
 # ---------------------------------------------------------------------------
+# verdict cache: a harness that PASSED on byte-identical inputs (all crate sources,
+# Cargo.lock, the harness file, kstub.rs, the driver's classification code) is not
+# re-solved when another property of the same run needs it again.  Content
+# addressed; disabled with VERIF_NO_CACHE=1.  Only passes are cached.
+
+def _cache_key(h, src_sha):
+    hh = hashlib.sha256()
+    hh.update(src_sha.encode())
+    for fn in (h.file, "kstub.rs"):
+        hh.update(open(os.path.join(KANI_DIR, fn), "rb").read())
+    lock = os.path.join(REPO, "Cargo.lock")
+    if os.path.exists(lock):
+        hh.update(open(lock, "rb").read())
+    hh.update(open(os.path.abspath(__file__), "rb").read())
+    hh.update(("%s|%s|%s|kani-0.68.0" % (h.name, h.flags, h.unwind)).encode())
+    return hh.hexdigest()[:24]
+
+
+def cache_get(h, src_sha):
+    if os.environ.get("VERIF_NO_CACHE"):
+        return None
+    p = os.path.join(CACHE, "results", _cache_key(h, src_sha) + ".json")
+    if not os.path.exists(p):
+        return None
+    try:
+        d = json.load(open(p))
+    except Exception:
+        return None
+    r = HarnessRun(h)
+    r.status = "pass"
+    r.wall = d["wall"]
+    r.solver_s = d["solver_s"]
+    r.n_checks = d["n_checks"]
+    r.n_oblig = d["n_oblig"]
+    r.covers = [tuple(c) for c in d["covers"]]
+    r.vccs = tuple(d["vccs"]) if d.get("vccs") else None
+    r.steps = d.get("steps")
+    r.log = d.get("log", "")
+    r.cached = d.get("decided_at")
+    return r
+
+
+def cache_put(r, src_sha):
+    if r.status != "pass" or os.environ.get("VERIF_NO_CACHE"):
+        return
+    d = os.path.join(CACHE, "results")
+    os.makedirs(d, exist_ok=True)
+    p = os.path.join(d, _cache_key(r.h, src_sha) + ".json")
+    json.dump({"wall": r.wall, "solver_s": r.solver_s, "n_checks": r.n_checks, "n_oblig": r.n_oblig,
+               "covers": r.covers, "vccs": r.vccs, "steps": r.steps, "log": r.log,
+               "decided_at": time.strftime("%Y-%m-%dT%H:%M:%SZ", time.gmtime())}, open(p, "w"))
+
+
+# ---------------------------------------------------------------------------
 # run a set of harnesses for a property
 
 def run_property_kani(prop, tier, harnesses, seed):
@@ -560,6 +617,16 @@ def run_property_kani(prop, tier, harnesses, seed):
             runs.append(r)
         cleanup(d)
         return runs, meta
+    src_sha = meta["repo_src_sha"]
+    todo = []
+    for h in harnesses:
+        c = cache_get(h, src_sha)
+        if c is not None:
+            runs.append(c)
+            log("  [%s] %-34s %-12s (decided %s on identical sources, %.0fs)" % (prop, h.name, "pass*", c.cached, c.wall))
+        else:
+            todo.append(h)
+    harnesses = todo
     try:
         # schedule: memory-aware greedy; threads just wait on subprocesses
         pending = sorted(harnesses, key=lambda h: -h.timeout)
@@ -603,6 +670,7 @@ def run_property_kani(prop, tier, harnesses, seed):
                     h = futs.pop(f)
                     mem_used -= h.mem
                     r = f.result()
+                    cache_put(r, src_sha)
                     runs.append(r)
                     log("  [%s] %-34s %-12s %6.1fs %s" % (prop, h.name, r.status, r.wall, r.reason))
     finally:
